@@ -661,7 +661,7 @@ Definition cc_bad06 (k : c_case) : bool := negb (C06_check (cc_cfg k) (cc_hist k
 Definition cc_bad07 (k : c_case) : bool := negb (C07_check (cc_cfg k) (cc_hist k)).
 
 (* coverage: how many answers of each kind the log determined / left open *)
-Fixpoint cov_from (c : ccfg) (lg : log) (h : hist) (acc : nat * nat * nat * nat) : nat * nat * nat * nat :=
+Fixpoint cov_from (c : ccfg) (lg : log) (h : hist) (acc : N * N * N * N) : N * N * N * N :=
   match h with
   | [] => acc
   | (t, o, r) :: h' =>
@@ -669,18 +669,18 @@ Fixpoint cov_from (c : ccfg) (lg : log) (h : hist) (acc : nat * nat * nat * nat)
     let kn w := match known c lg t w with Some _ => true | None => false end in
     let acc' :=
       match o with
-      | OAccept w _ | OTransmit w _ => if kn w then (S a_det, a_open, f_det, f_open) else (a_det, S a_open, f_det, f_open)
-      | OShould i => if kn (it_w i) then (a_det, a_open, S f_det, f_open) else (a_det, a_open, f_det, S f_open)
+      | OAccept w _ | OTransmit w _ => if kn w then (a_det + 1, a_open, f_det, f_open)%N else (a_det, a_open + 1, f_det, f_open)%N
+      | OShould i => if kn (it_w i) then (a_det, a_open, f_det + 1, f_open)%N else (a_det, a_open, f_det, f_open + 1)%N
       | OPre l | OFRes l | OFProp l =>
-          let n := length (filter (fun i => kn (it_w i)) l) in
-          (a_det, a_open, (f_det + n)%nat, (f_open + (length l - n))%nat)
+          let n := N.of_nat (length (filter (fun i => kn (it_w i)) l)) in
+          (a_det, a_open, f_det + n, f_open + (N.of_nat (length l) - n))%N
       | _ => acc
       end in
     cov_from c (log_step lg t o r) h' acc'
   end.
-Definition cc_cov (k : c_case) : nat * nat * nat * nat := cov_from (cc_cfg k) [] (cc_hist k) (0, 0, 0, 0)%nat.
-Definition cov4_sum (l : list (nat * nat * nat * nat)) : nat * nat * nat * nat :=
-  fold_left (fun '(a, b, c, d) '(x, y, z, u) => (a + x, b + y, c + z, d + u)%nat) l (0, 0, 0, 0)%nat.
+Definition cc_cov (k : c_case) : N * N * N * N := cov_from (cc_cfg k) [] (cc_hist k) (0, 0, 0, 0)%N.
+Definition cov4_sum (l : list (N * N * N * N)) : N * N * N * N :=
+  fold_left (fun '(a, b, c, d) '(x, y, z, u) => (a + x, b + y, c + z, d + u)%N) l (0, 0, 0, 0)%N.
 
 (* how many transmit answers were true, accept answers true / false *)
 Definition cc_nontriv (k : c_case) : bool :=
